@@ -4,6 +4,7 @@ let families : (string * (string list -> string)) list = [
   "conn", Fam_conn.run;
   "charac", Fam_charac.run;
   "stack", Fam_stack.run;
+  "catalog", Fam_catalog.run;
   "connw", Fam_connw.run;
   "storage", Fam_storage.run;
   "db", Fam_storage.run_db;
